@@ -285,3 +285,49 @@ func verifC06Labels513() { verifC06LabelsN(513, 1) }
 func verifC06Labels520() { verifC06LabelsN(520, 1) }
 func verifC06Bits513()   { verifC06BitsN(513) }
 func verifC06COT17()     { verifC06COTN(17) }
+
+// verifC06Mixed: both forms on ONE initialised pair (the PRG streams are
+// shared state): a packed-bit batch, then a label batch, then another bit
+// batch; every batch must satisfy its correlation.
+func verifC06MixedN(nb, nl int) {
+	q := &verifQueueIO{}
+	s, r := verifIKNPPair(q)
+	bitBatch := func() {
+		words := (nb + 63) / 64
+		choices := make([]uint64, words)
+		for w := range choices {
+			choices[w] = zzverif.U64("choices")
+		}
+		rbits := make([]uint64, words)
+		sbits := make([]uint64, words)
+		zzverif.Assert(r.ReceiveBits(choices, rbits, nb) == nil, "ReceiveBits ok")
+		zzverif.Assert(s.SendBits(nb, sbits) == nil, "SendBits ok")
+		d := uint64(s.Delta.Bit(0))
+		for i := 0; i < nb; i++ {
+			rb := (rbits[i/64] >> uint(i%64)) & 1
+			sb := (sbits[i/64] >> uint(i%64)) & 1
+			cb := (choices[i/64] >> uint(i%64)) & 1
+			zzverif.Assert(rb == sb^(cb&d), "bit batch on a shared instance: r_i = s_i xor b_i*Delta.Bit(0)")
+		}
+	}
+	bitBatch()
+	b := make([]bool, nl)
+	for i := range b {
+		b[i] = zzverif.Bool("b")
+	}
+	recv := make([]Label, nl)
+	zzverif.Assert(r.Receive(b, recv, false) == nil, "Receive ok")
+	sent, err := s.Send(nl, false)
+	zzverif.Assert(err == nil && len(sent) == nl, "Send ok")
+	for i := 0; i < nl && i < len(sent); i++ {
+		exp := sent[i]
+		if b[i] {
+			exp.Xor(s.Delta)
+		}
+		zzverif.Assert(recv[i].Equal(exp), "label batch after a bit batch on the same instance: received_i = sent_i xor choice_i*Delta")
+	}
+	bitBatch()
+	zzverif.Reach("end")
+}
+
+func verifC06Mixed9() { verifC06MixedN(9, 9) }
